@@ -62,6 +62,8 @@ impl GenericSocketBackend {
                     }
                 },
             };
+            #[cfg(feature = "verif-hooks")]
+            crate::__verif::yield_point("rr.after_pop").await;
             let send_result = match self.peers.get_async(&next_peer_id).await {
                 Some(mut peer) => peer.send_queue.send(message).await,
                 None => continue,
